@@ -604,11 +604,12 @@ __find_zrng(const struct zif_s z[static 1U], int32_t t, int min, int max)
 
 	trno = __find_trno(z, t, min, max);
 	res.prev = zif_trans(z, trno);
-	if (UNLIKELY(trno <= 0 && t < res.prev)) {
+	if (UNLIKELY(trno < 0 && zif_ntrans(z))) {
+		/* before the first transition,
+		 * assume the first offset has always been there */
 		res.trno = 0U;
 		res.prev = INT_MIN;
-		/* assume the first offset has always been there */
-		res.next = res.prev;
+		res.next = zif_trans(z, 0);
 	} else if (UNLIKELY(trno < 0)) {
 		/* special case where no transitions are recorded */
 		res.trno = 0U;
@@ -655,6 +656,10 @@ __offs(struct zif_s z[static 1U], int32_t t)
 	if (LIKELY(t >= z->cache.prev && t < z->cache.next)) {
 		/* use the cached offset */
 		return z->cache.offs;
+	} else if (UNLIKELY(z->cache.prev >= z->cache.next)) {
+		/* nothing cached yet */
+		min = 0;
+		max = zif_ntrans(z);
 	} else if (t >= z->cache.next) {
 		min = z->cache.trno + 1;
 		max = zif_ntrans(z);
